@@ -131,7 +131,8 @@ func (h *HelloElemVersionBitmap) Header() *HelloElemHeader {
 func (h *HelloElemVersionBitmap) Len() (n uint16) {
 	n = h.HelloElemHeader.Len()
 	n += uint16(len(h.Bitmaps) * 4)
-	return
+	// an element occupies its length rounded up to a multiple of 8 (zero padding)
+	return (n + 7) / 8 * 8
 }
 
 func (h *HelloElemVersionBitmap) MarshalBinary() (data []byte, err error) {
@@ -151,12 +152,19 @@ func (h *HelloElemVersionBitmap) MarshalBinary() (data []byte, err error) {
 }
 
 func (h *HelloElemVersionBitmap) UnmarshalBinary(data []byte) error {
-	length := len(data)
 	read := 0
+	if len(data) < 4 {
+		return errors.New("The []byte is too short to unmarshal a full HelloElemVersionBitmap.")
+	}
 	if err := h.HelloElemHeader.UnmarshalBinary(data[:4]); err != nil {
 		return err
 	}
 	read += int(h.HelloElemHeader.Len())
+	// the bitmaps are what the element length announces, not the rest of the message
+	length := int(h.Length)
+	if length < read || length > len(data) {
+		return errors.New("The hello element length does not fit the []byte.")
+	}
 
 	h.Bitmaps = make([]uint32, 0)
 	for read < length {
